@@ -94,6 +94,7 @@ class Executor:
         self.events = {}           # (kind, site) -> pc (OR of path conditions where it happened)
         self.monitor_alloc = False
         self.monitor_writes = True
+        self.escape_lines = None
         self.readonly = set()      # objids that must never be written
         self.unroll_limit = None
         self.deadline = None
@@ -1098,11 +1099,13 @@ class Executor:
             z = self.prog.zero(ins['elem'])
             oid = self.newobj(st, z, ('alloc', ins['pos'], ins.get('comment', '')))
             if ins.get('heap') and self.monitor_alloc:
-                self.pending_alloc = getattr(self, 'pending_alloc', None)
+                self.alloc_event(st, 1, ins['pos'], 'alloc')
             env[ins['name']] = ('P', oid, ())
             return None
         if op == 'MakeInterface':
             x = val(st, fr, ins['x'])
+            if self.monitor_alloc and self.prog.types[ins['xt']]['kind'] not in ('ptr', 'map', 'func', 'chan', 'iface', 'nil'):
+                self.alloc_event(st, 1, ins['pos'], 'box')
             env[ins['name']] = ('I', self.prog.types[ins['xt']]['str'], x)
             return None
         if op == 'TypeAssert':
@@ -1144,6 +1147,8 @@ class Executor:
             return None
         if op == 'MakeClosure':
             f = ins['fn']
+            if self.monitor_alloc and ins['bindings']:
+                self.alloc_event(st, 1, ins['pos'], 'closure')
             env[ins['name']] = ('F', f[1], tuple(val(st, fr, b) for b in ins['bindings']))
             return None
         if op == 'Defer':
@@ -1453,11 +1458,27 @@ class Executor:
 
     # ------------------------------------------------------------------
     def alloc_event(self, st, size, pos, kind):
-        if not self.monitor_alloc:
+        """heap allocation monitor (C19). Active only while the harness has switched the watch on.
+        Which source lines heap-allocate is taken from the compiler's own escape analysis
+        (go build -gcflags=-m, see driver.gc_escapes); growth of a slice beyond its capacity,
+        map creation and fmt calls always allocate."""
+        if not self.monitor_alloc or ('watch', '') not in st.flags:
             return
-        if size.__class__ is int and size == 0 and kind in ('makeslice', 'bytes', 'string'):
-            return
-        self.event(st, 'alloc', '%s %s' % (kind, pos))
+        line = pos.rsplit(':', 1)
+        key = pos
+        esc = self.escape_lines
+        if kind in ('makeslice', 'bytes', 'closure', 'box', 'alloc'):
+            if size.__class__ is int and size == 0 and kind in ('makeslice', 'bytes'):
+                return
+            if esc is not None and key not in esc:
+                return
+        elif kind == 'string':
+            if size.__class__ is int:
+                if size == 0:
+                    return
+                if size <= 32 and esc is not None and key not in esc:
+                    return      # non-escaping conversion of <= 32 bytes uses a stack buffer
+        self.event(st, 'alloc', '%s %s' % (kind, pos.replace('/repo/', '')))
 
     # ------------------------------------------------------------------
     def call(self, st, fr, ins):
